@@ -499,11 +499,35 @@ def _shallow_has_sym(args, kw):
     return False
 
 
+def _has_symstr(args, kw):
+    for a in list(args) + list(kw.values()):
+        if isinstance(a, SStr):
+            return True
+        if isinstance(a, (list, tuple)) and any(isinstance(x, SStr) for x in a):
+            return True
+    return False
+
+
+def _needs_concretize(f, args, kw):
+    """Symbolic arguments must be concretised for native callees; modules a harness declared
+    transparent (they only store their arguments) let symbolic ints/bools through, but never strings."""
+    if not _callee_is_native(f):
+        if _has_symstr(args, kw):
+            g = getattr(f, "__globals__", None) or getattr(getattr(f, "__func__", None), "__globals__", None) or {}
+            mod = g.get("__name__") if g else getattr(f, "__module__", "")
+            return mod in TRANSPARENT_STR_CONCRETIZE
+        return False
+    return True
+
+
+TRANSPARENT_STR_CONCRETIZE = {"docutils.nodes", "docutils.utils", "docutils.statemachine"}
+
+
 def rt_call(f, *args, **kw):
     d = _BUILTIN_DISPATCH.get(f) if f.__class__ in _BUILTIN_KINDS else None
     if d is not None:
         return d(*args, **kw)
-    if (args or kw) and _shallow_has_sym(args, kw) and _callee_is_native(f):
+    if (args or kw) and _shallow_has_sym(args, kw) and _needs_concretize(f, args, kw):
         eng = core.engine()
         args = tuple(eng.concretize(a) for a in args)
         kw = {k: eng.concretize(v) for k, v in kw.items()}
@@ -552,7 +576,7 @@ def rt_callm(obj, name, *args, **kw):
                 return getattr(sre.SYMRE.compile(obj), name)(*args, **kw)
         return getattr(obj, name)(*args, **kw)
     f = getattr(obj, name)
-    if (args or kw) and _shallow_has_sym(args, kw) and _callee_is_native(f):
+    if (args or kw) and _shallow_has_sym(args, kw) and _needs_concretize(f, args, kw):
         eng = core.engine()
         args = tuple(eng.concretize(a) for a in args)
         kw = {k: eng.concretize(v) for k, v in kw.items()}
